@@ -93,10 +93,11 @@ type AbsFun struct {
 // AbsObj is an abstract shape (SDF2/SDF3 operand): Evaluate is uninterpreted,
 // BoundingBox a tuple of symbolic reals.
 type AbsObj struct {
-	name string
-	typ  types.Type
-	bb   Value
-	dim  int
+	name  string
+	typ   types.Type
+	bb    Value
+	dim   int
+	stamp int // value of the cell counter when the object was made (freshness of havocked results)
 }
 
 // Str is a string value.
